@@ -822,7 +822,24 @@ func (vc *VC) run() {
 	cov2 := &Obligation{Name: vc.eng.funcName(fn) + "/cover/exit", Kind: "cover", Func: vc.eng.funcName(fn),
 		Mark: vc.q.Mark(), Reach: ex.st.reach, Goal: False, ExpectSat: true, vc: vc}
 	vc.obls = append(vc.obls, cov2)
+	if coverReturns && len(fr.exits) > 1 && len(fr.exits) <= 24 {
+		// per-return reachability (diagnostic, thorough tier): a return that is unreachable in the MODEL - for instance because
+		// an assumed callee contract hides the effect that makes its guard true - has all its obligations discharged
+		// vacuously; cover/exit does not see that as long as another return is reachable. Listed in the evidence, no alarm:
+		// a return can be legitimately dead in the model (an error path of a callee modelled as pure).
+		for k, xe := range fr.exits {
+			line := 0
+			if xe.pos.IsValid() && fn.Prog != nil {
+				line = fn.Prog.Fset.Position(xe.pos).Line
+			}
+			vc.obls = append(vc.obls, &Obligation{Name: fmt.Sprintf("%s/cover/return@%d:line%d", vc.eng.funcName(fn), k, line), Kind: "cover-return",
+				Func: vc.eng.funcName(fn), Mark: vc.q.Mark(), Reach: xe.st.reach, Goal: False, ExpectSat: true, vc: vc})
+		}
+	}
 }
+
+// coverReturns: generate the per-return reachability diagnostics (thorough tier, or GOVC_COVER_RETURNS=1)
+var coverReturns bool
 
 // frameObligations checks that only the cells named in `assigns` changed among pre-existing objects.
 func (vc *VC) frameObligations(fr *Frame, envPre *Env, exit *State) {
